@@ -35,6 +35,7 @@ pub fn check(rep: &mut Rep, w: &World, t: i128, su: TimeScale, dy: TimeScale) {
         rep.class("before-j2000");
     }
     rep.nt(h64(&[t as u64, (t >> 64) as u64, scale_idx(su), scale_idx(dy)]));
+    rep.log_event("todyn", || format!("\"t\":\"{}\",\"dy\":\"{:?}\",\"want\":\"{}\"", t, dy, want));
     rep.sample("to-dyn", || format!("TAI count {} given in {:?} -> {:?}: closed form reading {}", t, su, dy, want));
     let det = || format!("Epoch({}, {:?}).to_time_scale({:?})", d_u, su, dy);
     match guard(|| {
@@ -90,6 +91,7 @@ pub fn check_from(rep: &mut Rep, w: &World, r_c: i128, dy: TimeScale, su: TimeSc
     let t = w.to_tai(r_c, dy);
     let want = t - zero_tai_ns(su);
     let det = || format!("Epoch({}, {:?}).to_time_scale({:?})", r_c, dy, su);
+    rep.log_event("fromdyn", || format!("\"r\":\"{}\",\"dy\":\"{:?}\",\"want_tai\":\"{}\"", r_c, dy, t));
     rep.sample("from-dyn", || format!("{:?} reading {} -> {:?}: closed form {}", dy, r_c, su, want));
     match guard(|| {
         let e = if dy == TimeScale::ET { Epoch::from_et_duration(mk(r_c)) } else { Epoch::from_tdb_duration(mk(r_c)) };
